@@ -1,8 +1,9 @@
 """C01 - closed systems conserve the domain integral (interior face fluxes cancel)."""
 import opscheck
 
-CLOSED = ["C01_ClosedDiffusion", "C01_ClosedCentral", "C01_ClosedUpwind", "C01_ClosedDivergence"]
-MID = ["C01_ClosedDiffusionMid", "C01_ClosedCentralMid", "C01_ClosedUpwindMid", "C01_ClosedDivergenceMid"]
+CLOSED = ["C01_ClosedDiffusion", "C01_ClosedCentral", "C01_ClosedUpwind", "C01_ClosedDivergence", "C01_ClosedTvd"]
+MID = ["C01_ClosedDiffusionMid", "C01_ClosedCentralMid", "C01_ClosedUpwindMid", "C01_ClosedDivergenceMid",
+       "C01_ClosedTvdMid"]
 PERIODIC = ["C01_PeriodicDiffusion", "C01_PeriodicCentral", "C01_PeriodicUpwind"]
 
 
